@@ -157,7 +157,7 @@ def miri_arm(prop, seed, count, findings, notes):
         e = dict(env)
         e["MIRIFLAGS"] = "-Zmiri-ignore-leaks -Zmiri-symbolic-alignment-check -Zmiri-seed=%d" % ((seed + w) % (2 ** 31))
         jobs.append(dict(cmd=["cargo", "+nightly", "miri", "run", "--offline", "-q", "-p", "vecsim", "--", "batch", "--seed", str(seed),
-                              "--start", str(10 ** 9 + w * per), "--count", str(per), "--mode", mode, "--trace-cases"],
+                              "--start", str(10 ** 9 + w * per), "--count", str(per), "--mode", mode, "--max-len", "40", "--trace-cases"],
                          cwd=SIM, env=e, tag="miri%d" % w))
     results = fan_out(jobs, timeout=7200)
     merged = Merged()
